@@ -365,7 +365,7 @@ class C04(Check):
                ("pox/openflow/flow_table.py", "FlowTable.remove_expired_entries"), ("pox/openflow/flow_table.py", "FlowTable.remove_matching_entries"),
                ("pox/openflow/flow_table.py", "FlowTable.entry_for_packet"), ("pox/openflow/flow_table.py", "FlowTable.check_for_overlapping_entry"),
                ("pox/openflow/flow_table.py", "_matches_overlap")]
-    design_ref = "DESIGN.md §5 C04, §6 D23, C04-1/2/3 (fixed); repair proposed for C03's D36 incl. _matches_overlap: fixes/C04_D36_tos_dscp.diff"
+    design_ref = "DESIGN.md §5 C04, §6 D23, C04-1/2/3 (fixed); C03's D36 incl. _matches_overlap (fixes/C04_D36_tos_dscp.diff; the tree's state is probed, see code_variant)"
     technique = ("Lean 4 proof (invariants over all operation histories; per-operation refinement of the hand-written switch model to a transcription of the "
                  "OpenFlow 1.0 §4.6/§4.7 flow table, lifted to histories by induction; bit-level lemmas tying ofp_match.__eq__ / matches_with_wildcards / "
                  "_matches_overlap to 'same packet set' / subsumption / overlap, and the proposed repairs to the standard's view of a match) + differential "
@@ -461,7 +461,7 @@ class C04(Check):
                                           "D26 exactSig", "D36 tosDscp"], self.cfg)),
                 "code_variant_decided_by": "behaviour of the real switch on witness inputs",
                 "buffer_store_observed": "slots of the switch's buffer list" if self.pool_seen else "from the wire only (unknown representation)",
-                "c03_variant_cross_check": {"c03": self.c03_says, "agrees": (self.c03_says[:3] == self.cfg[3:6]) if isinstance(self.c03_says, list) else None}}
+                "c03_variant_cross_check": {"c03": self.c03_says, "agrees": (self.c03_says[:4] == self.cfg[3:3 + len(self.c03_says[:4])]) if isinstance(self.c03_says, list) else None}}
 
     # ---------------------------------------------------------------- frames (real packet library)
     def frames(self):
